@@ -73,6 +73,17 @@ __CPROVER_requires(VR_PRE(info, result))
 __CPROVER_ensures(VR_POST(vr_exp_AggregationChainInputHashAlgorithmVerification(info), result))
 __CPROVER_assigns(result != NULL: *result);
 
+/* INT-17, INT-14 */
+int KSI_VerificationRule_Rfc3161RecordOutputHashAlgorithmVerification(KSI_VerificationContext *info, KSI_RuleVerificationResult *result)
+__CPROVER_requires(VR_PRE(info, result))
+__CPROVER_ensures(VR_POST(vr_exp_Rfc3161RecordOutputHashAlgorithmVerification(info), result))
+__CPROVER_assigns(result != NULL: *result);
+
+int KSI_VerificationRule_Rfc3161RecordHashAlgorithmVerification(KSI_VerificationContext *info, KSI_RuleVerificationResult *result)
+__CPROVER_requires(VR_PRE(info, result))
+__CPROVER_ensures(VR_POST(vr_exp_Rfc3161RecordHashAlgorithmVerification(info), result))
+__CPROVER_assigns(result != NULL: *result);
+
 /* INT-03; documented tempData field: aggregationOutputHash (filled in when the consistency rule has not run before) */
 int KSI_VerificationRule_CalendarHashChainInputHashVerification(KSI_VerificationContext *info, KSI_RuleVerificationResult *result)
 __CPROVER_requires(VR_PRE(info, result))
